@@ -22,7 +22,7 @@ FUNCS = ["discopy.quantum.tk.to_tk", "discopy.quantum.tk.from_tk",
 
 # ------------------------------------------------- reference tket semantics
 
-def op_matrix(cmd):
+def op_matrix(cmd, exact=True):
     """matrix U[out, in] of a tket command (symbolic for rotations)"""
     import sympy
     from pytket.circuit import OpType
@@ -35,6 +35,9 @@ def op_matrix(cmd):
     for i in range(U.shape[0]):
         for j in range(U.shape[1]):
             v = complex(U[i, j])
+            if not exact:
+                out[i, j] = v if v != 0 else 0
+                continue
             out[i, j] = sympy.nsimplify(v, [sympy.sqrt(2)], tolerance=1e-12) \
                 if v != 0 else 0
     return out
@@ -65,6 +68,9 @@ def simulate(tk_circ):
     mid-circuit measurements: dict bits -> probability (sympy expressions)"""
     import sympy
     n, nb = tk_circ.n_qubits, len(tk_circ.bits)
+    # exact (sympy) arithmetic only when some angle is symbolic
+    exact = any(getattr(p_, 'free_symbols', None)
+                for cmd in tk_circ.get_commands() for p_ in cmd.op.params)
     state = np.zeros((2,) * n or (1,), dtype=object)
     state[(0,) * n or (0,)] = 1
     branches = [((0,) * nb, state)]
@@ -85,7 +91,7 @@ def simulate(tk_circ):
                     new.append((tuple(nbits), proj))
             branches = new
         else:
-            U = op_matrix(cmd)
+            U = op_matrix(cmd, exact)
             branches = [(bits, apply_gate(st, U, qs, n))
                         for bits, st in branches]
     dist = {}
@@ -94,7 +100,7 @@ def simulate(tk_circ):
         for a in st.flatten():
             if isinstance(a, int) and a == 0:
                 continue
-            p = p + sympy.conjugate(a) * a
+            p = p + (sympy.conjugate(a) * a if exact else abs(a) ** 2)
         dist[bits] = dist.get(bits, 0) + p
     return dist
 
@@ -121,15 +127,18 @@ def exported_distribution(tk_circ):
 
 # --------------------------------------------------------------- generator
 
-def gen_circuit(E, m, nmax=2):
+def gen_circuit(E, m, nmax=2, alphabet=None, start=None):
     import sympy
     from discopy.quantum import gates as G
     from discopy.quantum.circuit import (Id, qubit, bit, Measure, Discard,
                                          Swap)
     c = Id(0)
-    nprep = E.choice('nprep', [1, 2])
-    for i in range(nprep):
-        c = c @ E.choice('prep%d' % i, [G.Ket(0), G.Ket(1), G.Bits(0)])
+    if start is not None:
+        c = G.Ket(*[0] * start) >> Id(0).tensor(*[G.H] * start)
+    else:
+        nprep = E.choice('nprep', [1, 2])
+        for i in range(nprep):
+            c = c @ E.choice('prep%d' % i, [G.Ket(0), G.Ket(1), G.Bits(0)])
     nsym = 0
     for layer in range(m):
         scan = c.cod
@@ -154,6 +163,8 @@ def gen_circuit(E, m, nmax=2):
                     opts += [('swap-bb', off), ('match', off)]
                 if t2 == qubit:
                     opts += [('swap-bq', off)]
+        if alphabet is not None:
+            opts = [o for o in opts if o[0] in alphabet]
         kind, off = E.choice('op%d' % layer, opts)
         if kind in ('Rx', 'CRz'):
             nsym += 1
@@ -224,12 +235,12 @@ def shape_key(c):
     return '+'.join(sorted(feats)) or 'plain'
 
 
-def export(E, m):
+def export(E, m, nmax=2, alphabet=None, start=None):
     """to_tk then exact simulation + recorded post-processing == local
     mixed evaluation, for all phases"""
     sym.begin(E)
     validate_reference(E)
-    c = gen_circuit(E, m)
+    c = gen_circuit(E, m, nmax, alphabet, start)
     E.note('circuit', str(c))
     try:
         t = c.to_tk()
@@ -383,7 +394,7 @@ def harnesses(tier):
     q = tier == "quick"
     T = 900 if q else 3000
     m = 2 if q else 3
-    return [
+    hs = [
         H("export", export, dict(m=m), FUNCS, covers=["exported", "roundtrip"],
           engine="SYM (z3 QF_NRA) + reference tket semantics (state vector "
           "with branching on measurement)", bounds="1-2 preparations then %d "
@@ -413,3 +424,21 @@ def harnesses(tier):
           bounds="7 concrete circuits", stubs=["stub backend: "
                                                "process_circuits -> handles, get_result(h).get_counts() -> dict"],
           timeout_s=T)]
+    if not q:
+        hs += [
+        H("bookkeeping_qubits", export,
+          dict(m=4, nmax=2, alphabet=['ket', 'bra0', 'H', 'measure'], start=2),
+          FUNCS, covers=["exported", "roundtrip"], engine="SYM + reference "
+          "tket semantics", bounds="H(x)H|00> then 4 layers over {Ket(0) at "
+          "every position, Bra(0), H, Measure} with <= 2 qubits alive: the "
+          "qubit register bookkeeping of to_tk", timeout_s=T,
+          solver_timeout_ms=20000),
+        H("bookkeeping_bits", export,
+          dict(m=4, nmax=2, alphabet=['bits', 'bra0', 'bra1', 'measure'],
+               start=3),
+          FUNCS, covers=["exported", "roundtrip"], engine="SYM + reference "
+          "tket semantics", bounds="H(x)H(x)H|000> then 4 layers over "
+          "{Bits(0) at every position, Bra(0), Bra(1), Measure}: the bit "
+          "register / post-selection bookkeeping of to_tk", timeout_s=T,
+          solver_timeout_ms=20000)]
+    return hs
